@@ -518,4 +518,18 @@ def decode_chunker(short, vals, meta):
 
 
 def decode_dir(short, vals, meta):
+    """validate_path_sym[10]: buf:[u8;N] n:usize ; node_encoding: auto_gzip is_gzipped stale_ce stale_vary (bool)"""
+    r = Reader(vals)
+    if short.startswith("validate_path_sym"):
+        N = 10 if short.endswith("10") else 7
+        buf = read_array(r, N)
+        n = r.usize()
+        if n > N or any(c >= 0x80 for c in buf[:n]):
+            return None
+        return {"kind": "dir_path", "path": buf[:n]}
+    if short == "node_encoding":
+        a, g, sc, sv = r.boolean(), r.boolean(), r.boolean(), r.boolean()
+        if g and not a:
+            return None
+        return {"kind": "dir_node", "auto_gzip": a, "is_gzipped": g, "stale_ce": sc, "stale_vary": sv}
     return None
